@@ -1,8 +1,7 @@
-(* C11 / the domain of the theorems: a YAML document whose mapping keys are scalars carrying at most
-   one marker converts -- if it converts at all -- to well-formed parameters, also when it spells one
+(* C11 / the domain of the theorems: a YAML document whose string keys carry at most one marker (keys
+   of other kinds, lists and mappings included, are unrestricted) converts -- if it converts at all -- to well-formed parameters, also when it spells one
    key several times through markers (k, ~k, =k in one mapping): the spellings are collected as
-   layers of one entry.  (Double markers and container keys are outside; the correspondence runs
-   cover them.) *)
+   layers of one entry.  (Double markers are outside; the correspondence runs cover them.) *)
 From RV Require Import Model.Yaml Proofs.ValueFacts Proofs.MappingFacts Proofs.WfFacts Proofs.YamlFacts.
 
 (** insert_impl keeps mappings well-formed when the key carries at most one marker *)
@@ -35,9 +34,9 @@ Proof.
     apply wf_list_iff. apply Forall_app. split; [now apply wf_list_iff | exact Hl].
 Qed.
 
-(** scalar keys with at most one marker; no tags *)
+(** keys of any kind; a string key carries at most one marker; no tags *)
 Definition sclean_keys (l : list (yaml * yaml)) : Prop :=
-  exists ks, ykeys l = Some ks /\ Forall (fun k => unmarked (stripped k)) ks.
+  Forall (fun kv => forall a, try_value_of_yaml (fst kv) = Ok a -> unmarked (stripped a)) l.
 
 Fixpoint sclean_yaml (y : yaml) : Prop :=
   match y with
@@ -56,7 +55,11 @@ Proof.
   induction y as [| b | n | s0 | l IH | l IH | t y IH] using yaml_ind'; intros Hc; try exact Hc.
   - cbn [clean_yaml sclean_yaml] in *. induction l as [|x l IHl]; [exact I|].
     inversion IH as [|? ? Hx IHr]; subst. destruct Hc as [Hcx Hcl]. split; [exact (Hx Hcx) | exact (IHl IHr Hcl)].
-  - cbn [clean_yaml sclean_yaml] in *. destruct Hc as [(ks & Hks & _ & Hum) Hvals]. split; [exists ks; split; assumption|].
+  - cbn [clean_yaml sclean_yaml] in *. destruct Hc as [(ks & Hks & _ & Hum) Hvals]. split.
+    { unfold sclean_keys. clear - Hks Hum. revert ks Hks Hum. induction l as [|[k v] l IHl]; intros ks Hks Hum; [constructor|].
+      cbn [ykeys] in Hks. destruct (ykey k) as [a|] eqn:Ek; [|discriminate]. destruct (ykeys l) as [ks'|]; [|discriminate].
+      injection Hks as <-. inversion Hum as [|? ? Ha Hum']; subst. constructor; [|exact (IHl ks' eq_refl Hum')].
+      cbn [fst]. intros a0 E. rewrite (ykey_try _ _ Ek) in E. injection E as <-. exact Ha. }
     clear ks Hks Hum. induction l as [|[k v] l IHl]; [exact I|]. inversion IH as [|? ? [_ Hv] IHr]; subst.
     destruct Hvals as [Hcv Hcl]. cbn [snd] in Hv. split; [exact (Hv Hcv) | exact (IHl IHr Hcl)].
 Qed.
@@ -84,24 +87,22 @@ Proof.
       constructor; [exact (Hx vx Hcx eq_refl) | exact (IHl IHr Hcl vl eq_refl)].
   - rewrite try_map_eq in H. unfold rmap in H.
     destruct (try_map l []) as [m| | |] eqn:E; cbn [bind] in H; try discriminate. injection H as <-.
-    cbn [sclean_yaml] in Hc. destruct Hc as [(ks & Hks & Hum) Hvals].
-    assert (G : forall l ks (acc m : mapping),
+    cbn [sclean_yaml] in Hc. destruct Hc as [Hum Hvals]. unfold sclean_keys in Hum.
+    assert (G : forall l (acc m : mapping),
                Forall (fun kv => (forall v, sclean_yaml (fst kv) -> try_value_of_yaml (fst kv) = Ok v -> wf v) /\
                                  (forall v, sclean_yaml (snd kv) -> try_value_of_yaml (snd kv) = Ok v -> wf v)) l ->
-               ykeys l = Some ks -> Forall (fun k => unmarked (stripped k)) ks ->
+               Forall (fun kv => forall a, try_value_of_yaml (fst kv) = Ok a -> unmarked (stripped a)) l ->
                (fix go (l : list (yaml * yaml)) : Prop := match l with [] => True | (_, v) :: l' => sclean_yaml v /\ go l' end) l ->
                wf (VMap acc) -> try_map l acc = Ok m -> wf (VMap m)).
-    { clear. induction l as [|[k v] l IHl]; intros ks acc m IH Hks Hum Hvals Ha E; cbn [try_map] in E.
+    { clear. induction l as [|[k v] l IHl]; intros acc m IH Hum Hvals Ha E; cbn [try_map] in E.
       - injection E as <-. exact Ha.
       - inversion IH as [|? ? [_ Hv] IHr]; subst. cbn [fst snd] in Hv. destruct Hvals as [Hcv Hvals].
-        cbn [ykeys] in Hks. destruct (ykey k) as [a|] eqn:Ek; [|discriminate].
-        destruct (ykeys l) as [ks'|] eqn:Eks; [|discriminate]. injection Hks as <-.
-        rewrite (ykey_try _ _ Ek) in E. cbn [bind] in E.
+        inversion Hum as [|? ? Hua Hum']; subst. cbn [fst] in Hua.
+        destruct (try_value_of_yaml k) as [a| | |] eqn:Ek; cbn [bind] in E; try discriminate.
         destruct (try_value_of_yaml v) as [vv| | |] eqn:Ev; cbn [bind] in E; try discriminate.
-        inversion Hum as [|? ? Hua Hum']; subst.
         unfold m_insert in E. destruct (insert_impl acc a vv false false) as [acc2| | |] eqn:Ei; cbn [bind] in E; try discriminate.
-        apply (IHl ks' acc2 m IHr eq_refl Hum' Hvals); [|exact E].
-        exact (insert_wf_gen _ _ _ _ _ _ Ha (Hv vv Hcv eq_refl) Hua Ei). }
-    apply (G l ks [] m IH Hks Hum Hvals); [|exact E]. apply wf_map_iff. repeat split; constructor.
+        apply (IHl acc2 m IHr Hum' Hvals); [|exact E].
+        exact (insert_wf_gen _ _ _ _ _ _ Ha (Hv vv Hcv eq_refl) (Hua a eq_refl) Ei). }
+    apply (G l [] m IH Hum Hvals); [|exact E]. apply wf_map_iff. repeat split; constructor.
   - destruct Hc.
 Qed.
